@@ -285,3 +285,20 @@ for meth in ('stop_current', 'stop_background', 'has_jobs', 'get_current', 'get_
     c.ensures('lock-balanced', 'lock_released(self)')
     if meth == 'has_jobs':
         c.ensures('no-jobs-iff-everything-finished', 'result == (len(self._queue) > 0 or len(self._background) > 0 or self._active_agent is not None)')
+
+
+# ---- is_running: true exactly for the name of the active queued job and the names of live background jobs
+#      (the web front end relies on it to refuse duplicates: C20)
+for active in (0, 1):
+    for nbg in (0, 1, 2):
+        c = contract(JC, 'JobControl.is_running', serves=['C08', 'C20'], name='JobControl.is_running[active=%d,background=%d]' % (active, nbg))
+        def _setup(b, case, active=active, nbg=nbg):
+            jc, q, act = job_control(b, 'any', active, nbg=nbg)
+            return {'self': jc, 'name': b.sym('str', 'asked_name'), '_act': act, '_bgs': PyList(list(jc.attrs['_background'].d.values()))}
+        c.setup(_setup)
+        if nbg:
+            c.bounded('%d background job(s)' % nbg)
+        c.ensures('exactly-the-running-names',
+                  "iff(result is True, (_act is not None and name == _act._name) or any(name == x._name for x in _bgs))")
+        c.ensures('answers-yes-or-no', 'result is True or result is False')
+        c.ensures('touches-nothing', "self._active_agent is old(self._active_agent) and same_agents(self._queue, old(self._queue)) and len(self._background) == len(old(self._background))")
